@@ -25,6 +25,7 @@ def setFlag (fl : Flags) (kv : String) : Flags :=
   | ["hash", v] => { fl with atrHashCoversFinalTxs := bit v }
   | ["window", v] => { fl with windowChecked := bit v }
   | ["txv", v] => { fl with txVerdictPropagated := bit v }
+  | ["triplefee", v] => { fl with tripleFeeDeducted := bit v }
   | _ => fl
 
 def parseSlip (s : String) : Option Slip :=
@@ -142,6 +143,16 @@ def step (fl : Flags) (line : String) : Flags × String :=
   | ["scan", ts] =>
     let l := if ts == "-" then [] else (ts.splitOn ",").filterMap String.toNat?
     (fl, "groups=" ++ String.intercalate "" ((Saito.AtrScan.scan l).map Saito.AtrScan.Group.tag))
+  -- `acct <m> <fee> <t:a,…>`: payload amounts that come back from the rebroadcast of one transaction's collected outputs
+  | ["acct", m, f, tas] =>
+    let l := if tas == "-" then [] else (tas.splitOn ",").filterMap (fun x => match x.splitOn ":" with
+      | [t, a] => (match t.toNat?, a.toNat? with | some t, some a => some (t, a) | _, _ => none)
+      | _ => none)
+    match m.toNat?, f.toNat? with
+    | some m, some f =>
+      let A := Saito.AtrScan.acct fl.tripleFeeDeducted m f (Saito.AtrScan.payloads l)
+      (fl, "back=[" ++ String.intercalate "," (A.back.map toString) ++ "]")
+    | _, _ => (fl, "bad-op")
   | _ => (fl, "bad-op")
 
 partial def loop (h out : IO.FS.Stream) (fl : Flags) : IO Unit := do
